@@ -176,3 +176,83 @@ pub fn run_faultdiag(args: &Args) {
     let _ = OneDep;
     let _ = diag_list;
 }
+
+// ---------------------------------------------------------------------------------------------
+// C18: the production entry point (lsp::server::run_server, what main() runs) in a child process with a
+// controlled environment, talking LSP over its stdio.
+pub fn run_server_child(_args: &Args) {
+    let rt = tokio::runtime::Builder::new_multi_thread().enable_all().build().unwrap();
+    let r = rt.block_on(version_lsp::lsp::server::run_server());
+    if let Err(e) = r {
+        eprintln!("run_server returned an error: {e}");
+        std::process::exit(1);
+    }
+}
+
+fn lsp_frame(v: &Value) -> Vec<u8> {
+    let body = serde_json::to_vec(v).unwrap();
+    let mut out = format!("Content-Length: {}\r\n\r\n", body.len()).into_bytes();
+    out.extend_from_slice(&body);
+    out
+}
+
+/// parent: stdin lines {"xdg": string|null, "home": string|null, "cwd": string|null}
+pub fn run_server_parent(_args: &Args) {
+    use std::io::{Read, Write};
+    let stdin = std::io::stdin();
+    for line in stdin.lock().lines() {
+        let line = line.unwrap();
+        if line.trim().is_empty() { continue; }
+        let v: Value = serde_json::from_str(&line).unwrap();
+        let mut cmd = std::process::Command::new(std::env::current_exe().unwrap());
+        cmd.arg("server-child").env_remove("XDG_DATA_HOME").env_remove("HOME")
+            .stdin(std::process::Stdio::piped()).stdout(std::process::Stdio::piped()).stderr(std::process::Stdio::piped());
+        if let Some(x) = v["xdg"].as_str() { cmd.env("XDG_DATA_HOME", x); }
+        if let Some(h) = v["home"].as_str() { cmd.env("HOME", h); }
+        if let Some(c) = v["cwd"].as_str() { cmd.current_dir(c); }
+        let mut child = cmd.spawn().unwrap();
+        let mut cin = child.stdin.take().unwrap();
+        let mut cout = child.stdout.take().unwrap();
+        let (tx, rx) = std::sync::mpsc::channel::<Vec<u8>>();
+        std::thread::spawn(move || {
+            let mut buf = [0u8; 8192];
+            loop {
+                match cout.read(&mut buf) { Ok(0) | Err(_) => break, Ok(n) => { let _ = tx.send(buf[..n].to_vec()); } }
+            }
+        });
+        let msgs = [
+            json!({"jsonrpc": "2.0", "id": 1, "method": "initialize", "params": {"capabilities": {}}}),
+            json!({"jsonrpc": "2.0", "method": "initialized", "params": {}}),
+            json!({"jsonrpc": "2.0", "method": "textDocument/didOpen", "params": {"textDocument": {"uri": "file:///w/package.json", "languageId": "json", "version": 1,
+                   "text": "{\n  \"dependencies\": {\n    \"lodash\": \"1.0.0\"\n  }\n}"}}}),
+            json!({"jsonrpc": "2.0", "id": 2, "method": "textDocument/codeAction", "params": {"textDocument": {"uri": "file:///w/package.json"},
+                   "range": {"start": {"line": 2, "character": 16}, "end": {"line": 2, "character": 16}}, "context": {"diagnostics": []}}}),
+        ];
+        let mut write_ok = true;
+        for m in &msgs {
+            if cin.write_all(&lsp_frame(m)).is_err() { write_ok = false; break; }
+            let _ = cin.flush();
+            std::thread::sleep(std::time::Duration::from_millis(150));
+        }
+        let mut got = Vec::new();
+        let deadline = std::time::Instant::now() + std::time::Duration::from_millis(2500);
+        while std::time::Instant::now() < deadline {
+            match rx.recv_timeout(std::time::Duration::from_millis(200)) { Ok(b) => got.extend_from_slice(&b), Err(_) => {} }
+            let t = String::from_utf8_lossy(&got);
+            if t.contains("\"id\":2") { break; }
+        }
+        let text = String::from_utf8_lossy(&got).to_string();
+        let alive = matches!(child.try_wait(), Ok(None));
+        // orderly shutdown
+        let _ = cin.write_all(&lsp_frame(&json!({"jsonrpc": "2.0", "id": 3, "method": "shutdown"})));
+        let _ = cin.write_all(&lsp_frame(&json!({"jsonrpc": "2.0", "method": "exit"})));
+        drop(cin);
+        std::thread::sleep(std::time::Duration::from_millis(200));
+        let status = match child.try_wait() { Ok(Some(s)) => json!(s.code()), _ => { let _ = child.kill(); let _ = child.wait(); json!("killed") } };
+        let mut err = String::new();
+        if let Some(mut e) = child.stderr.take() { let _ = e.read_to_string(&mut err); }
+        emit(v, json!({"initialized": text.contains("\"id\":1") && text.contains("capabilities"), "answered_action": text.contains("\"id\":2"),
+                       "warned": text.contains("Cache not available") || text.contains("window/showMessage"),
+                       "published": text.contains("publishDiagnostics"), "alive_after_requests": alive, "write_ok": write_ok, "exit": status, "stderr": err.chars().take(300).collect::<String>()}));
+    }
+}
